@@ -122,6 +122,46 @@ func c13(r *Run) {
 		r.check(len(bad) == 0, "C13.R1", short(fnName(f))+":checked-arithmetic", w.rel(f.Pos()), "every uint64 +,-,* is checked, guarded or 128-bit", "unchecked 64-bit arithmetic that can wrap: "+strings.Join(bad, "; "))
 	}
 
+	// R4: an exact mul-div helper may saturate only on evidence about the FINAL quotient: the condition of every saturating
+	// return must depend on all divisors (saturating on an intermediate quotient over-approximates the proportional change)
+	r.rule("C13.R4", "K5", "saturation of the proportional change is decided on the final quotient", 1)
+	if cn != nil {
+		for _, c := range callsTo(cn, func(n string) bool { return strings.HasPrefix(n, pkgIFees+".") }) {
+			h := w.Fn(calleeName(c))
+			if h == nil || len(h.Params) < 3 {
+				continue
+			}
+			okk := true
+			detail := ""
+			nsat := 0
+			for _, b := range h.Blocks {
+				ret, ok := b.Instrs[len(b.Instrs)-1].(*ssa.Return)
+				if !ok || len(ret.Results) != 1 {
+					continue
+				}
+				if cst, ok := ret.Results[0].(*ssa.Const); !ok || cst.Value == nil || cst.Value.ExactString() != "18446744073709551615" {
+					continue
+				}
+				nsat++
+				for _, cc := range ctrlConds(b) {
+					for pi, p := range h.Params {
+						if pi < 2 {
+							continue // the factors
+						}
+						pp := p
+						if !derivesFrom(cc.If.Cond, func(v ssa.Value) bool { return v == ssa.Value(pp) }) {
+							okk = false
+							detail = fmt.Sprintf("the saturating return at %s is decided by %s, which does not depend on divisor %s", w.rel(ret.Pos()), predString(cc.If.Cond, cc.Succ == 0), p.Name())
+						}
+					}
+				}
+			}
+			if nsat > 0 {
+				r.check(okk, "C13.R4", short(fnName(h))+":saturate-on-final-quotient", w.rel(h.Pos()), "", detail)
+			}
+		}
+	}
+
 	if cn != nil {
 		total := "internal/window.Sum(*)"
 		// increase
